@@ -205,6 +205,9 @@ FIXED_FACES = [
     ("pole_corner", [174.0, 0.0, -53.0, -86.0, -119.0, -152.0], [-62.5, -90.0, -62.5, -62.5, -62.5, -62.5]),
     ("pole_corner", [127.0, -173.0, 0.0], [45.0, 45.0, 90.0]),
     # corner at a pole with the other corners at clearly DIFFERENT latitudes (which of them precedes the pole matters)
+    # the pole node stored with a longitude far outside the face's own range (the pole has no longitude of its own)
+    ("pole_corner", [20.0, 70.0, 170.0], [60.0, 62.0, 90.0]),
+    ("pole_corner", [-160.0, -110.0, -60.0, 65.0], [-60.0, -55.0, -62.0, -90.0]),
     ("pole_corner", [10.0, 40.0, 0.0], [-80.0, -65.0, -90.0]),
     ("pole_corner", [10.0, 40.0, 0.0], [80.0, 65.0, 90.0]),
     ("pole_corner", [-120.0, -95.0, -70.0, 0.0], [-75.0, -60.0, -70.0, -90.0]),
@@ -384,7 +387,7 @@ def _check_face(box, orc, desc, fails):
     ncase += 1
     exp_lo, exp_hi = orc["lon_lo"], orc["lon_hi"]
     tight = _circ_close(lon_min, exp_lo, 1e-7) and _circ_close(lon_max, exp_hi, 1e-7)
-    if not tight and orc["pole_corner"]:
+    if not tight and orc["pole_corner"] and LENIENT_POLE_LON:
         # a pole corner has no longitude of its own; ALSO accept the shortest interval that additionally covers the
         # longitude value stored for the pole node (lenient reading of "covering the boundary")
         L = np.sort(np.concatenate([lon[orc["has_lon"]], orc["corner_lon"][orc["pole_corner"]]]))
@@ -396,6 +399,9 @@ def _check_face(box, orc, desc, fails):
              + (" (with or without the longitude stored for the pole corner)" if orc["pole_corner"] else ""), box_l,
              [float(exp_lo), float(exp_hi)])
     return ncase
+
+
+LENIENT_POLE_LON = False
 
 
 def _admissible(orc):
